@@ -87,6 +87,11 @@ def _rt(bs):
     return out
 
 
+def G_names():
+    from ..gen import programs as G
+    return G.names()
+
+
 def builder_outputs(rng):
     T = impl.tools()
     from nacl.signing import SigningKey
@@ -259,6 +264,24 @@ def run(ctx: Ctx) -> Result:
         # deterministic probe of known finding K9: a DEF inside the hoisted condition of an IF inside a DEF body
         try: rt.append(('K9 probe', P.compile_script('def 0 { if ( def 1 { true } true ) { false } }')))
         except BaseException: pass
+        try: rt.append(('K9 probe (macro route)', P.compile_script('!= m [ ] { DEF 1 { OP_TRUE } } DEF 0 { !m [ ] } CALL d0')))
+        except BaseException: pass
+        # block nesting far deeper than any VM limit: the compiler has no nesting limit, so neither may the decompiler
+        N = G_names()
+        def nest(depth, kinds):
+            b = bytes([N['TRUE']])
+            for d in range(depth):
+                k = kinds[d % len(kinds)]
+                if k == 'IF': b = bytes([N['TRUE'], N['IF']]) + len(b).to_bytes(2, 'big') + b
+                elif k == 'ELSE': b = bytes([N['FALSE'], N['IF_ELSE']]) + (1).to_bytes(2, 'big') + bytes([N['FALSE']]) + len(b).to_bytes(2, 'big') + b
+                elif k == 'TRY': b = bytes([N['TRY_EXCEPT']]) + len(b).to_bytes(2, 'big') + b + (0).to_bytes(2, 'big')
+                elif k == 'EXCEPT': b = bytes([N['TRY_EXCEPT']]) + (1).to_bytes(2, 'big') + bytes([N['FALSE']]) + len(b).to_bytes(2, 'big') + b
+                else: b = bytes([N['TRUE'], N['LOOP']]) + len(b).to_bytes(2, 'big') + b
+            return b
+        for depth in (64, 127, 128, 129, 130, 200):
+            for kinds in (['IF'], ['TRY'], ['IF', 'ELSE', 'TRY', 'EXCEPT', 'LOOP']):
+                b = nest(depth, kinds)
+                if len(b) < 60000: rt.append((f'{depth} nested blocks ({"/".join(kinds)})', b))
         chunks = [rt[i::32] for i in range(32)]
         outs = pool.map_async(_rt, [[b for _, b in ch] for ch in chunks]).get(timeout=3000)
         for ch, oc in zip(chunks, outs):
@@ -271,7 +294,7 @@ def run(ctx: Ctx) -> Result:
         from ..core import known_ids
         if k9:
             if 'K9' in known_ids('C12'):
-                res.known.append(('K9', f'the compiler accepts a DEF inside the hoisted condition of an IF inside a DEF body and emits a DEF directly inside the DEF body, '
+                res.known.append(('K9', f'the compiler emits a DEF directly inside a DEF body (inner DEF written in a hoisted IF condition or brought in by a macro), '
                                         f'whose listing it then rejects ({len(k9)} compiler outputs this run, e.g. {k9[0][1].hex()[:60]})'))
             else:
                 viol(k9[0][0] + ' (compile(decompile(b)) != b)', k9[0][1], 'compile(decompile(b)) == b', 'ERR:SyntaxError:cannot use OP_DEF within OP_DEF body')
